@@ -72,7 +72,16 @@ fn main() {
             }
             "HV" => vecops::run(&toks[2..]),
             "HF" => flexops::run(&toks[2..]),
-            "IO" => io_suite::run(&toks[2..]),
+            "IO" => {
+                if toks.len() < 4 {
+                    "HARNESS-ERROR IO needs a kind and a shape".to_string()
+                } else {
+                    match shapes_gen::ops(toks[3]) {
+                        None => format!("HARNESS-ERROR unknown shape {}", toks[3]),
+                        Some(o) => o.io(toks[2], &toks[4..]),
+                    }
+                }
+            }
             other => format!("HARNESS-ERROR unknown op {}", other),
         };
         writeln!(out, "{} {}", cid, res).unwrap();
